@@ -202,3 +202,22 @@ Definition table_summary (v : nat) :=
    map rp_name (filter (fun x => rp_valid x && negb (rp_valid_after x)) fired),
    List.length fired, List.length (filter rp_valid fired),
    forallb rp_ok fired).
+
+(* ---- correspondence predicates (harness/checks/C14.py) ---- *)
+Definition rings_of (t : list (Z * list Z)) (n : Z) : list Z := match zget t n with Some l => l | None => [] end.
+Definition m_collection (c : Z) : list rule := if c =? 0 then double_rules else if c =? 1 then single_rules else metal_rules.
+(* the SET of mappings the real get_mapping yielded for rule (c, ridx) on g0 (ring sizes as the real atoms carry them) is the
+   set of embeddings the specification enumerates *)
+Definition matches_ok (c ridx : Z) (rt : list (Z * list Z)) (g0 : mol) (mps : list mapping) : bool :=
+  match nth_error (m_collection c) (Z.to_nat ridx) with
+  | Some r => same_matches r (brute_matches (rings_of rt) 0 0 r g0) mps
+  | None => false
+  end.
+Fixpoint zins (x : Z) (l : list Z) : list Z := match l with [] => [x] | y :: r => if x <=? y then x :: l else y :: zins x r end.
+(* standardize() after fix_resonance entirely inside Coq (small molecules: ring sizes by brute force), molecule and the set of
+   recalculated atoms compared; used for runs in which no rule had more than one embedding (the order of embeddings is not modelled) *)
+Definition passes_bf_ok (ft : bool) (pre : list Z) (g0 g1 : mol) (fixed : list Z) : bool :=
+  match standardize_passes bf_matches calc_h double_rules single_rules metal_rules ft g0 with
+  | Ok (g', _, f') => mol_eqb g' g1 && list_eqb Z.eqb (fold_right zins [] (union_set pre f')) fixed
+  | Err _ => false
+  end.
